@@ -28,7 +28,7 @@ import (
 func main() { Main(run) }
 
 const (
-	genT  = uint64(1) << 40
+	genT  = uint64(1) << 20
 	dcap  = 65536
 	pcap  = 4096
 	wfuel = 40
@@ -187,7 +187,7 @@ func run(out *Out, r *Rand, tier string, replay []string) {
 		out.Close("replay")
 		return
 	}
-	n := 600
+	n := 2500
 	if tier == "thorough" {
 		n = 15000
 	}
